@@ -27,7 +27,7 @@ RULE = (
 ASSUMPTIONS = ["'well-formed' is the syntax documented in docs/reference/docstrings.md as rendered by mc/checks/c13.py", "Sphinx: continuation lines are joined with a space and sections come back in the parser's fixed order (the property only promises written order for Google and Numpy)"]
 MANIFEST = {
     "category": "exploration",
-    "text": "Bounded exhaustive enumeration of section lists (<= 2 quick / <= 3 thorough sections from a menu of ~45 instances covering every section kind, item shape and description shape) rendered in Google, Numpy and Sphinx syntax and parsed by the real parsers under each documented option variant; the parse must equal the model exactly (no stripping). Small dedicated families: Sphinx type fields before/after their item and a parameter and an attribute of one name in all 24 field orders, property parents (summary type, Returns without written types). A signature-shapes family documents functions and classes with full signatures containing type parameters, nested brackets, slices, lambdas and dict displays (Google and Numpy).",
+    "text": "Bounded exhaustive enumeration of section lists (<= 2 quick / <= 3 thorough sections from a menu of ~45 instances covering every section kind, item shape and description shape) rendered in Google, Numpy and Sphinx syntax and parsed by the real parsers under each documented option variant; the parse must equal the model exactly (no stripping). Small dedicated families: Sphinx type fields before/after their item and a parameter and an attribute of one name in all 24 field orders, property parents (summary type, Returns without written types). A signature-shapes family documents functions and classes with full signatures containing type parameters, nested brackets, slices, lambdas and dict displays (Google and Numpy). Three-item sections run on their own; a type-spellings family spreads tuples spelled tuple / Tuple / typing.Tuple / Tuple through a star import over un-annotated items and checks the operand order of unions and dotted chains, written or taken from the signature.",
     "note": "The renderers are hand-written from the documentation; complete for the instance menu and list length stated.",
     "technique": "model checking by exhaustive small-scope enumeration of section lists with render-parse round trip on the real parsers",
 }
